@@ -3,6 +3,7 @@ package main
 import (
 	"fmt"
 	"go/ast"
+	"go/types"
 	"strings"
 
 	"golang.org/x/tools/go/cfg"
@@ -48,6 +49,8 @@ func runC20(c *Ctx) {
 	checkLockBalance(r, p, "lock/balance", []string{pkg}, nil, nil)
 	checkLockOrder(r, p, "lock/order", lockOrderOpts{Pkgs: []string{pkg}})
 
+	// (1b) every other writer keeps the list sorted
+	checkOrderPreservingWrites(r, p, pkg, info)
 	// (1) order maintenance
 	if f := p.CFGOf(pkg, "OrderedDaemon", "BackgroundWorker"); f == nil {
 		r.Unresolved("order/sorted-descending", pkg+".OrderedDaemon.BackgroundWorker", "method not found")
@@ -450,4 +453,100 @@ func containsNode(outer, inner ast.Node) bool {
 		return !found
 	})
 	return found
+}
+
+// checkOrderPreservingWrites: stopWorkers walks shutdownOrderWorker front to back and relies on
+// it being sorted by descending shutdown order; only BackgroundWorker sorts. Every other write
+// to the list's elements must therefore keep the relative order: the removal shifts the tail
+// left by one (copy(s[i:], s[i+1:]) / append(s[:i], s[i+1:]...)), clears vacated slots with the
+// zero value, or is followed by a re-sort on every path. A swap-with-last removal leaves a
+// low-order worker in front of higher-order ones.
+func checkOrderPreservingWrites(r *Reporter, p *Prog, pkg string, info *types.Info) {
+	const field = "shutdownOrderWorker"
+	isFieldSlice := func(e ast.Expr) (low string, ok bool) {
+		se, isSl := ast.Unparen(e).(*ast.SliceExpr)
+		if !isSl || !fieldSel(info, se.X, field) || se.High != nil {
+			return "", false
+		}
+		if se.Low == nil {
+			return "0", true
+		}
+		return exprKey(se.Low), true
+	}
+	isSort := func(n ast.Node) bool {
+		cl, ok := n.(*ast.CallExpr)
+		return ok && strings.HasPrefix(exprKey(cl.Fun), "sort.") && len(cl.Args) >= 1 && fieldSel(info, cl.Args[0], field)
+	}
+	nShift := 0
+	for _, fd := range p.Methods(pkg, "OrderedDaemon") {
+		if fd.Body == nil {
+			continue
+		}
+		fkey := funcKey(pkg, fd)
+		f := newFuncCFG(p, info, fd.Body, fkey)
+		for _, b := range f.G.Blocks {
+			if !b.Live {
+				continue
+			}
+			for i, nd := range b.Nodes {
+				pt := Point{b, i}
+				resorted := func() bool {
+					_, found := f.PathToExitAvoiding(pt, isSort)
+					return !found
+				}
+				switch x := nd.(type) {
+				case *ast.AssignStmt:
+					for li, l := range x.Lhs {
+						ix, ok := ast.Unparen(l).(*ast.IndexExpr)
+						if !ok || !fieldSel(info, ix.X, field) || li >= len(x.Rhs) {
+							continue
+						}
+						key := fmt.Sprintf("%s = %s in %s", exprKey(l), exprKey(x.Rhs[li]), fkey)
+						if tv, ok := info.Types[x.Rhs[li]]; ok && tv.Value != nil && tv.Value.String() == `""` {
+							r.Pass("order/writes-keep-order", key, p.posStr(x.Pos()), "clears a vacated slot with the zero value")
+						} else if resorted() {
+							r.Pass("order/writes-keep-order", key, p.posStr(x.Pos()), "followed by a re-sort on every path")
+						} else {
+							r.Fail("order/writes-keep-order", key, p.posStr(x.Pos()), "an element of the shutdown-order list is overwritten with another value and the list is not re-sorted afterwards: the descending order stopWorkers relies on is broken (a lower-order worker can be cancelled before a higher-order one has returned)")
+						}
+					}
+					// s = append(s[:i], s[i+1:]...)
+					if len(x.Lhs) == 1 && len(x.Rhs) == 1 && fieldSel(info, x.Lhs[0], field) {
+						if cl, ok := ast.Unparen(x.Rhs[0]).(*ast.CallExpr); ok && exprKey(cl.Fun) == "append" && len(cl.Args) == 2 && cl.Ellipsis.IsValid() {
+							if hs, ok := ast.Unparen(cl.Args[0]).(*ast.SliceExpr); ok && fieldSel(info, hs.X, field) && hs.Low == nil && hs.High != nil {
+								if low, ok := isFieldSlice(cl.Args[1]); ok && (low == "("+exprKey(hs.High)+"+1)" || low == exprKey(hs.High)+"+1") {
+									nShift++
+									r.Pass("order/writes-keep-order", "append-shift in "+fkey, p.posStr(x.Pos()), "removes one element by shifting the tail left")
+								}
+							}
+						}
+					}
+				case *ast.ExprStmt:
+					cl, ok := x.X.(*ast.CallExpr)
+					if !ok || exprKey(cl.Fun) != "copy" || len(cl.Args) != 2 {
+						continue
+					}
+					dl, okD := isFieldSlice(cl.Args[0])
+					sl, okS := isFieldSlice(cl.Args[1])
+					if !okD {
+						continue
+					}
+					key := fmt.Sprintf("copy(%s, %s) in %s", exprKey(cl.Args[0]), exprKey(cl.Args[1]), fkey)
+					if okS && (sl == "("+dl+"+1)" || sl == dl+"+1") {
+						nShift++
+						r.Pass("order/writes-keep-order", key, p.posStr(x.Pos()), "shifts the tail left by one: relative order preserved")
+					} else if resorted() {
+						r.Pass("order/writes-keep-order", key, p.posStr(x.Pos()), "followed by a re-sort on every path")
+					} else {
+						r.Fail("order/writes-keep-order", key, p.posStr(x.Pos()), "elements of the shutdown-order list are overwritten by a copy that is not the shift-left-by-one removal idiom, and the list is not re-sorted afterwards")
+					}
+				}
+			}
+		}
+	}
+	if fd := p.FuncDecl(pkg, "OrderedDaemon", "removeWorkerFromShutdownOrder"); fd == nil {
+		r.Unresolved("order/writes-keep-order", pkg+".OrderedDaemon.removeWorkerFromShutdownOrder", "the removal of an exited worker from the shutdown-order list was not found")
+	} else if nShift == 0 {
+		r.Advise("order/writes-keep-order: removeWorkerFromShutdownOrder does not use a recognised shift-left idiom; only its element stores were judged")
+	}
 }
